@@ -154,4 +154,7 @@ theorem braceFree_pathEscape (v : Bytes) : braceFree (GoURL.pathEscape v) = true
   have := GoURL.pathEscape_no_special v c hc
   exact ⟨this.2.2.2.1, this.2.2.2.2.1⟩
 
+/-- Names that `substSeq` can be trusted with: no `{`/`}` inside (the property's placeholders). -/
+def NamesOk (params : List (Bytes × Bytes)) : Prop := ∀ kv ∈ params, braceFree kv.1 = true
+
 end RtVerif.C10
